@@ -112,6 +112,9 @@ def lossless_format(rng, off_has_seconds):
     if rng.random() < 0.15:
         # the date through a week number and a weekday (the year must be the full %Y)
         date = ["%Y"] + rng.choice([["%U", "%w"], ["%W", "%u"], ["%U", "%u"], ["%W", "%w"]])
+    elif rng.random() < 0.12:
+        # the month (and, redundantly, the weekday) by its locale name
+        date = rng.choice([[], ["%a"], ["%A"]]) + [year, rng.choice(["%b", "%B", "%h"]), "%d"]
     secs = rng.choice([["%E*S"], ["%S", ".", "%E*f"], ["%E15S"], ["%E18S"], ["%S", ",", "%E15f"]])
     tm = ["%H", "%M"] + secs
     offs = rng.choice(["%E*z", "%::z", "%:::z"] if off_has_seconds or rng.random() < 0.5 else ["%Ez", "%:z", "%z"])
@@ -154,7 +157,8 @@ def gen_c07(tier, rng):
             f = lossless_format(rng, True if rng.random() < 0.6 else False)
             cases.append("fp %s %s %d %d%s" % (zid, hx(f), rng.choice(ts), rng.choice(FS), pz()))
         for f in ("%Y-%m-%dT%H:%M:%E*S%E*z", "%Y-%m-%d %H:%M:%S.%E*f %::z", "%s", "%E4Y/%m/%d %H:%M:%E15S %:::z",
-                  "%Y week %U day %w %H:%M:%E*S %E*z", "%Y-W%W-%u %H:%M:%E*S %E*z"):
+                  "%Y week %U day %w %H:%M:%E*S %E*z", "%Y-W%W-%u %H:%M:%E*S %E*z",
+                  "%A, %d %B %Y %H:%M:%E*S %E*z", "%a %b %d %H:%M:%E15S %Y %::z"):
             for t in ts:
                 cases.append("fp %s %s %d %d%s" % (zid, hx(f), t, rng.choice(FS), pz()))
             # the two ends of the range with every kind of parse zone (parse()'s overflow checks consult a zone)
